@@ -242,6 +242,10 @@ def handleC18 (op : String) (args : List Sexp) : Option Ans :=
       else if isClassName s then
         (if fromClass s == 76 :: s ++ [59] && parseField (fromClass s) == some (.obj s) then passT else failT "obj")
       else oodT)
+  | "oracle-simple-name", [s] => do
+    let s ← toJStr? s
+    pure (if !validObj s then oodT
+      else if simpleName s == ((pieces 47 s).getLast?.getD []) then passT else failT "simple")
   | "oracle-split-join", [s] => do
     let s ← toJStr? s
     pure (if !validObj s then oodT else
